@@ -13,7 +13,7 @@ EXPLANATION = ("Structural rules over the typed HIR of the ID allocator and of e
                "the freshly updated candidate is not in the in-use set; N4 the same candidate is stored, inserted and "
                "returned; N5 who-may-touch: counter writes (through any alias of the place: `guard.0`, a destructured or re-borrowed guard) and set inserts only in the allocator - a store in the driver loop is accepted only when its arm's paths show it writes back the counter's own current value -, allocator called only "
                "from the operation issue point whose request tuple carries that value, set removals only in the driver "
-               "loop; N6 on every enumerated path of a select! arm a release comes with the un-routing of the same ID (or is the Abandon "
+               "loop - a `retain` is judged by the removals it amounts to: in the driver loop named IDs only, anywhere else none at all, a predicate about an ID's magnitude being decided against the allocator's own invariant (every member is in 1..=i32::MAX; used only when N2 / N4 / N8 and the other N5 obligations establish it on the analysed tree) -; N6 on every enumerated path of a select! arm a release comes with the un-routing of the same ID (or is the Abandon "
                "request's own, never-answered ID). Not decided: the arithmetic of 2^31 wrap-around as a runtime fact "
                "beyond this shape; scheduler interleavings (the single Mutex critical section is the argument).")
 TRUSTED = ['std::sync::Mutex mutual exclusion', 'std HashSet semantics']
